@@ -22,15 +22,25 @@ func init() {
 			"site's directory, env-reading sh, ref), tasks in the root and in an included Taskfile with its own dir (also a templated dir); each case " +
 			"compiles a random SEQUENCE of calls in one executor (so the dynamic-variable cache carries over) and every compile is compared with the " +
 			"model run on an EMPTY cache; plus command-environment lookups (task env / dotenv files / global env / process env) and matrix loops. " +
-			"The abstract layers sent to the model are read back from what Task loaded. non-trivial = the queried name is defined at >= 2 sites or the " +
+			"The model is given the files AS WRITTEN (root / included / nested file vars, include statements' vars, call and task vars) plus the inputs of the " +
+			"special variables (names, raw dir, file locations), never what Task loaded; tasks with aliases, wildcard names (MATCH) and sources (POST layer " +
+			"CHECKSUM / TIMESTAMP); user definitions named like special variables at every site. non-trivial = the queried name is defined at >= 2 sites or the " +
 			"call is not the first of its sequence; distinct by (files, call sequence prefix)"}
 }
 
-var vPool = []string{"VA", "VB", "VC", "VD", "VE", "VF", "VG", "TASK_DIR", "TASK"} // VG is only ever the global literal "sub" (templated dirs)
+var vPool = []string{"VA", "VB", "VC", "VD", "VE", "VF", "VG"} // VG is only ever the global literal "sub" (templated dirs)
 
-// TASK_DIR and TASK are SPECIAL variables: Task defines them itself (the lowest layer: the model's base environment);
-// a definition of the same name at any site must win over the special value ("available unless overridden").
-var vSpecial = []string{"TASK_DIR", "TASK"}
+// The special variables: Task defines them itself (`Vars.special` in the model — the lowest layer together with the
+// process environment); a definition of the same name at any site must win over the special value ("available unless
+// overridden").  The ids are the model's reserved names (TaskModel/Vars/Compile.lean).
+var vSpecialID = map[string]int{"TASK_EXE": 100, "ROOT_TASKFILE": 101, "ROOT_DIR": 102, "USER_WORKING_DIR": 103, "TASK_VERSION": 104, "TASK": 105,
+	"TASK_DIR": 106, "TASKFILE": 107, "TASKFILE_DIR": 108, "ALIAS": 109, "MATCH": 110, "CHECKSUM": 111, "TIMESTAMP": 112}
+
+// names a user definition may shadow in the generated cases
+var vSpecial = []string{"TASK_DIR", "TASK", "ALIAS", "ROOT_DIR", "TASKFILE_DIR"}
+
+// what every compile is asked for: the pool, then the special variables whose value does not depend on the build
+var vQuery = append(append([]string{}, vPool...), "TASK", "TASK_DIR", "ROOT_DIR", "ROOT_TASKFILE", "TASKFILE", "TASKFILE_DIR", "USER_WORKING_DIR", "ALIAS", "MATCH", "CHECKSUM", "TIMESTAMP")
 
 const vGen = 6 // names the generator draws from
 
@@ -39,6 +49,9 @@ func vID(name string) int {
 		if n == name {
 			return i
 		}
+	}
+	if id, ok := vSpecialID[name]; ok {
+		return id
 	}
 	return -1
 }
@@ -57,11 +70,16 @@ type vTask struct {
 	Vars   []vDef   `json:"vars"`
 	Env    []vDef   `json:"env"` // literal only
 	Dotenv []string `json:"dotenv"`
+	Alias  string   `json:"alias,omitempty"`  // `aliases: [<alias>]`
+	Method string   `json:"method,omitempty"` // "" | checksum | timestamp: the task has `sources: [src.txt]` (POST layer CHECKSUM / TIMESTAMP)
+	DirVia string   `json:"dir_via,omitempty"` // dir is `{{.VG}}` and VG comes from: call | task | subfile (C11, directory clause)
 }
 
 type vCall struct {
-	Task int    `json:"task"`
-	Vars []vDef `json:"vars"`
+	Task    int      `json:"task"`
+	Vars    []vDef   `json:"vars"`
+	ByAlias bool     `json:"by_alias,omitempty"` // asked for by its alias
+	Wild    []string `json:"wild,omitempty"`     // the task's name contains `*`: what each star stands for in this call
 }
 
 type varsCase struct {
@@ -72,9 +90,9 @@ type varsCase struct {
 	Include  bool                `json:"include"`
 	IncVars  []vDef              `json:"inc_vars"`
 	SubVars  []vDef              `json:"sub_vars"`
-	// Indep: the include-statement layers are literals and the model is given what the GENERATOR wrote
-	// (inner include vars, then outer include vars; included file's vars, then the nested file's), not
-	// what Task loaded — so a merge that drops or replaces a layer is noticed.  Deep adds a second level.
+	// Every layer the model gets is what the GENERATOR wrote (root / included / nested file variables, include
+	// statements' vars), never what Task loaded — so a merge that drops, replaces or reorders a layer is noticed.
+	// Deep adds a second include level.  (Indep: flag of older replay files, no longer used.)
 	Indep       bool   `json:"indep"`
 	Deep        bool   `json:"deep"`
 	DeepIncVars []vDef `json:"deep_inc_vars"`
@@ -86,6 +104,8 @@ type varsCase struct {
 	Matrix   [][]string          `json:"matrix,omitempty"` // product: rows: key, items...
 	Loop     *vLoop              `json:"loop,omitempty"`   // kind loop
 	Chain    *vChain             `json:"chain,omitempty"`  // kind envchain
+	EnvPipe  *vEnvPipe           `json:"envpipe,omitempty"` // kind envpipe (harness/varsenv.go)
+	FsHist   *vFsHist            `json:"fshist,omitempty"`  // kind fshist (harness/varsenv.go)
 }
 
 // vChain: `env:` entries given by `sh:` that read other env entries (global and task level) and
@@ -330,7 +350,13 @@ func renderVarsFiles(d varsCase) (root, sub string) {
 		if t.Leaf {
 			w = &l
 		}
-		fmt.Fprintf(w, "  %s:\n", t.Name)
+		fmt.Fprintf(w, "  %s:\n", varsYamlQ(t.Name))
+		if t.Alias != "" {
+			fmt.Fprintf(w, "    aliases: [%s]\n", t.Alias)
+		}
+		if t.Method != "" {
+			fmt.Fprintf(w, "    method: %s\n    sources: [src.txt]\n", t.Method)
+		}
 		if t.Dir != "" {
 			fmt.Fprintf(w, "    dir: %s\n", varsYamlQ(t.Dir))
 		}
@@ -464,6 +490,9 @@ func toAstVars(defs []vDef) *ast.Vars {
 
 var varsCaseNo int
 
+// the directories a task may end up in, with the suffix the dotenv files of that directory give their values
+var vDotDirs = [][2]string{{".", ""}, {"sub", "@s"}, {"sub/deep", "@d"}, {"alt", "@a"}, {"sub/alt", "@sa"}, {"sub/sub", "@ss"}, {"sub/deep/alt", "@da"}, {"sub/deep/sub", "@ds"}}
+
 type varsLine struct{ cl, il string }
 
 func evalVarsAll(d varsCase) (lines []varsLine) {
@@ -477,6 +506,16 @@ func evalVarsAll(d varsCase) (lines []varsLine) {
 	}
 	if d.Kind == "envchain" && d.Chain != nil {
 		return evalVarsChain(d)
+	}
+	if d.Kind == "fshist" && d.FsHist != nil {
+		return evalFsHist(*d.FsHist)
+	}
+	if d.Kind == "envpipe" && d.EnvPipe != nil {
+		cl, il := evalEnvPipe(*d.EnvPipe)
+		if il == "skipped-no-cli" {
+			return nil
+		}
+		return []varsLine{{cl, il}}
 	}
 	varsCaseNo++
 	base := os.Getenv("VERIF_SCRATCH")
@@ -499,7 +538,8 @@ func evalVarsAll(d varsCase) (lines []varsLine) {
 	// a task must get the file of its own directory, whatever another task read before
 	os.MkdirAll(filepath.Join(dir, "sub", "deep"), 0o755)
 	for name, kvs := range d.Dotenvs {
-		for _, where := range [][2]string{{".", ""}, {"sub", "@s"}, {filepath.Join("sub", "deep"), "@d"}} {
+		for _, where := range vDotDirs {
+			os.MkdirAll(filepath.Join(dir, where[0]), 0o755)
 			var b strings.Builder
 			for _, kv := range kvs {
 				fmt.Fprintf(&b, "%s=%s%s\n", kv[0], kv[1], where[1])
@@ -507,7 +547,17 @@ func evalVarsAll(d varsCase) (lines []varsLine) {
 			os.WriteFile(filepath.Join(dir, where[0], name), []byte(b.String()), 0o644)
 		}
 	}
-	for _, n := range vPool {
+	for _, where := range []string{".", "sub", filepath.Join("sub", "deep")} {
+		os.WriteFile(filepath.Join(dir, where, "src.txt"), []byte("source\n"), 0o644)
+		for _, v := range []string{"alt", "sub"} { // what a templated dir: may come out as
+			os.MkdirAll(filepath.Join(dir, where, v), 0o755)
+		}
+	}
+	os.MkdirAll(filepath.Join(dir, "home"), 0o755)
+	oldHome := os.Getenv("HOME")
+	os.Setenv("HOME", filepath.Join(dir, "home")) // `dir: '~'`
+	defer os.Setenv("HOME", oldHome)
+	for _, n := range vQuery {
 		os.Unsetenv(n)
 	}
 	for _, kv := range d.OsEnv {
@@ -564,99 +614,101 @@ func evalVarsAll(d varsCase) (lines []varsLine) {
 	}
 	var runExpect []string
 	var runCalls []*task.Call
+	home := os.Getenv("HOME")
+	subDir, deepDir := filepath.Join(dir, "sub"), filepath.Join(dir, "sub", "deep")
+	// the files AS WRITTEN: root first, then the include chain
+	files := []string{fmt.Sprintf("- 0 %s", defsTok(d.RootVars))}
+	if d.Include {
+		files = append(files, fmt.Sprintf("%s %s %s", hx(subDir), defsTok(d.IncVars), defsTok(d.SubVars)))
+		if d.Deep {
+			files = append(files, fmt.Sprintf("%s %s %s", hx(deepDir), defsTok(d.DeepIncVars), defsTok(d.LeafVars)))
+		}
+	}
 	for _, call := range d.Seq {
 		vt := d.Tasks[call.Task]
-		name := vt.Name
-		if vt.Sub {
-			name = "inc:" + name
+		ns, level, rawDir, tfile := "", 0, vt.Dir, filepath.Join(dir, "Taskfile.yml")
+		switch {
+		case vt.Sub: // Tasks.Merge: task.Dir = SmartJoin(include.Dir, task.Dir)
+			ns, level, rawDir, tfile = "inc:", 1, filepath.Join(subDir, vt.Dir), filepath.Join(subDir, "Taskfile.yml")
+		case vt.Leaf:
+			ns, level, rawDir, tfile = "inc:deep:", 2, filepath.Join(deepDir, vt.Dir), filepath.Join(deepDir, "Taskfile.yml")
 		}
-		if vt.Leaf {
-			name = "inc:deep:" + name
+		name := ns + vt.Name // t.Task
+		asked := name        // call.Task
+		wild := "0" // found under its own name: GetTask binds MATCH to the (empty) list of wildcards
+		if call.ByAlias && vt.Alias != "" {
+			asked = ns + vt.Alias
+			wild = "-1" // found through an alias: no MATCH
 		}
-		orig, ok := e.Taskfile.Tasks.Get(name)
-		if !ok {
-			lines = append(lines, varsLine{"vars.resolve missing-task", "missing-task"})
-			continue
+		if strings.Contains(vt.Name, "*") {
+			asked = vt.Name
+			for _, w := range call.Wild {
+				asked = strings.Replace(asked, "*", w, 1)
+			}
+			asked = ns + asked
+			wild = strings.TrimSpace(fmt.Sprintf("%d %s", len(call.Wild), hxs(call.Wild)))
 		}
 		cv := toAstVars(call.Vars)
-		t, err := e.CompiledTask(&task.Call{Task: name, Vars: cv})
-		// abstract layers as loaded
-		blocks := make([]string, 6)
-		allOK := true
-		// The "variables of the included Taskfile" layer is what the generator put into the included
-		// file's own vars: (documented order: they rank above the include statement's vars and the
-		// globals) — not read back from the merged task, so that a merge that hands the task some other
-		// variable set is noticed.
-		inclTF := orig.IncludedTaskfileVars
-		if vt.Sub {
-			inclTF = toAstVars(d.SubVars)
-			if d.Deep {
-				// the included file's variables already contain those of the file IT includes (merged upwards, later wins)
-				inclTF = toAstVars(mergeDefs(d.SubVars, d.LeafVars))
-			}
-		}
-		if vt.Leaf {
-			// merged twice: the included file's variables (the nested file's merged into them, later wins)
-			inclTF = toAstVars(mergeDefs(d.SubVars, d.LeafVars))
-		}
-		inclStmt := orig.IncludeVars
-		if d.Indep && vt.Sub {
-			inclStmt = toAstVars(d.IncVars)
-		}
-		if d.Indep && vt.Leaf {
-			// inner include statement first, the outer one merged over it
-			inclStmt = toAstVars(mergeDefs(d.DeepIncVars, d.IncVars))
-		}
-		for i, vs := range []*ast.Vars{e.Compiler.TaskfileEnv, e.Compiler.TaskfileVars, inclStmt, inclTF, toAstVars(call.Vars), orig.Vars} {
-			var bok bool
-			blocks[i], bok = absVars(vs)
-			allOK = allOK && bok
-		}
-		tpl, tok := partsTok(orig.Dir)
-		allOK = allOK && tok
+		t, err := e.CompiledTask(&task.Call{Task: asked, Vars: cv})
+		tpl, tok := partsTok(rawDir)
 		var q []string
-		for i := range vPool {
-			q = append(q, fmt.Sprint(i))
+		for _, n := range vQuery {
+			q = append(q, fmt.Sprint(vID(n)))
 		}
-		// the special variables of this call, as the lowest layer: TASK_DIR = the task's raw dir joined to the root, TASK = its name
-		rawDir := orig.Dir
-		if !filepath.IsAbs(rawDir) {
-			rawDir = filepath.Join(dir, rawDir)
+		fp := "0"
+		switch vt.Method {
+		case "checksum":
+			fp = fmt.Sprintf("1 %d %s", vID("CHECKSUM"), hx("LIVE"))
+		case "timestamp":
+			fp = fmt.Sprintf("1 %d %s", vID("TIMESTAMP"), hx("LIVE"))
 		}
-		callBase := append(append([]string{}, baseTok...), fmt.Sprintf("%d %s", vID("TASK_DIR"), hx(rawDir)), fmt.Sprintf("%d %s", vID("TASK"), hx(name)))
-		cl := fmt.Sprintf("vars.resolve %s 3 %s %d %s %s %d %s", hx(rootBase), tpl, len(d.OsEnv)+2, strings.Join(callBase, " "),
-			strings.Join(blocks, " "), len(q), strings.Join(q, " "))
+		cl := fmt.Sprintf("vars.compile %s %s %s %s %s %s %s %s %s %d %s %s %d %s %d %s %s %s %s %d %s", hx(home), hx(rootBase), hx("") /* no entrypoint was given */, hx(dir),
+			hx(name), hx(rawDir), tpl, hx(tfile), hx(asked), len(d.OsEnv), strings.Join(baseTok, " "), defsTok(d.RootEnv),
+			len(files), strings.Join(files, " "), level, defsTok(call.Vars), wild, defsTok(vt.Vars), fp, len(q), strings.Join(q, " "))
 		cl = strings.Join(strings.Fields(cl), " ")
-		if !allOK {
-			lines = append(lines, varsLine{cl, "harness-cannot-abstract " + hx(absWhy)})
+		if !tok || !defsOK(d, call) {
+			lines = append(lines, varsLine{cl, "harness-cannot-abstract"})
 			continue
 		}
 		if err != nil {
 			lines = append(lines, varsLine{cl, "error " + hx(err.Error())})
 			continue
 		}
-		var vals []string
-		for _, n := range vPool {
+		show := func(n string) string {
 			v, _ := t.Vars.Get(n)
-			s := ""
-			if v.Value != nil {
-				s = fmt.Sprint(v.Value)
+			switch {
+			case v.Live != nil:
+				return "LIVE" // the fingerprint value itself is the Finger domain's business; here: WHO wins
+			case v.Value != nil:
+				return fmt.Sprint(v.Value)
 			}
-			vals = append(vals, hx(s))
+			return ""
 		}
+		var vals []string
+		for _, n := range vQuery {
+			vals = append(vals, hx(show(n)))
+		}
+		vals = append(vals, "dir="+hx(t.Dir))
 		lines = append(lines, varsLine{cl, strings.Join(vals, " ")})
+		// the property's own reading of "special variables are available unless overridden" for the POST layer: a literal
+		// definition of CHECKSUM / TIMESTAMP at exactly one site the call sees must be what the task gets
+		if vt.Method != "" && os.Getenv("VERIF_VARS_POSTMON") != "0" { // the monitor belongs to C10 (C11 / C02 switch it off)
+			fpName := strings.ToUpper(vt.Method)
+			if want, ok := onlyLiteralDef(d, call, fpName); ok {
+				il := hx(show(fpName))
+				if show(fpName) == "LIVE" {
+					il += " post-layer-wins"
+				}
+				lines = append(lines, varsLine{fmt.Sprintf("vars.postmon %d %s", vID(fpName), hx(want)), il})
+			}
+		}
 		{
 			var plain []string
 			for _, n := range vPool[:vGen] {
-				v, _ := t.Vars.Get(n)
-				sv := ""
-				if v.Value != nil {
-					sv = fmt.Sprint(v.Value)
-				}
-				plain = append(plain, sv)
+				plain = append(plain, show(n))
 			}
 			runExpect = append(runExpect, "C:"+vt.Name+":"+strings.Join(plain, "|"), "D:"+vt.Name+":"+strings.Join(plain, "|"))
-			runCalls = append(runCalls, &task.Call{Task: name, Vars: toAstVars(call.Vars)})
+			runCalls = append(runCalls, &task.Call{Task: asked, Vars: toAstVars(call.Vars)})
 		}
 
 		// command environment: process env / global env / dotenv files / task env (literals only)
@@ -680,11 +732,10 @@ func evalVarsAll(d varsCase) (lines []varsLine) {
 				seen := map[string]bool{}
 				dotSuffix := ""
 				if rel, err := filepath.Rel(dir, t.Dir); err == nil {
-					switch filepath.ToSlash(rel) {
-					case "sub":
-						dotSuffix = "@s"
-					case "sub/deep":
-						dotSuffix = "@d"
+					for _, w := range vDotDirs {
+						if filepath.ToSlash(rel) == w[0] {
+							dotSuffix = w[1]
+						}
 					}
 				}
 				for _, f := range vt.Dotenv {
@@ -699,7 +750,11 @@ func evalVarsAll(d varsCase) (lines []varsLine) {
 				for _, kv := range d.OsEnv {
 					os_ = append(os_, vDef{Name: kv[0], Text: kv[1]})
 				}
-				ecl := fmt.Sprintf("vars.env %s %s %s %s 0 %d %s", enc(os_), enc(d.RootEnv), enc(dot), enc(vt.Env), len(q), strings.Join(q, " "))
+				var qe []string
+				for i := range vPool {
+					qe = append(qe, fmt.Sprint(i))
+				}
+				ecl := fmt.Sprintf("vars.env %s %s %s %s 0 %d %s", enc(os_), enc(d.RootEnv), enc(dot), enc(vt.Env), len(qe), strings.Join(qe, " "))
 				ecl = strings.Join(strings.Fields(ecl), " ")
 				environ := export.EnvGet(t)
 				var evals []string
@@ -723,7 +778,7 @@ func evalVarsAll(d varsCase) (lines []varsLine) {
 	// execution: the same calls, run in order in a fresh executor, must print what was resolved for
 	// each call — also from the deferred command, and also when the same task is called again
 	// with other variables (no call may observe another call's values)
-	if len(runCalls) > 0 && len(runExpect) == 2*len(runCalls) && !hasEnvSh(d) && os.Getenv("VERIF_VARS_RUN") != "0" {
+	if len(runCalls) > 0 && len(runExpect) == 2*len(runCalls) && !hasEnvSh(d) && !hasSources(d) && os.Getenv("VERIF_VARS_RUN") != "0" {
 		var buf strings.Builder
 		e2 := task.NewExecutor(task.WithDir(dir), task.WithStdout(&buf), task.WithStderr(io.Discard), task.WithSilent(true),
 			task.WithTempDir(task.TempDir{Remote: filepath.Join(dir, ".task"), Fingerprint: filepath.Join(dir, ".task")}))
@@ -744,6 +799,96 @@ func evalVarsAll(d varsCase) (lines []varsLine) {
 		}
 	}
 	return lines
+}
+
+func hasSources(d varsCase) bool {
+	for _, t := range d.Tasks {
+		if t.Method != "" {
+			return true
+		}
+	}
+	return false
+}
+
+// defsTok: a definition block of the protocol, from what the generator WROTE: `<n> (name kind parts)*`
+func defsTok(defs []vDef) string {
+	var out []string
+	for _, d := range defs {
+		id := vID(d.Name)
+		switch d.Kind {
+		case "ref":
+			out = append(out, fmt.Sprintf("%d r 1 r%d", id, vID(d.Text)))
+		case "sh":
+			pt, _ := partsTok(d.Text)
+			out = append(out, fmt.Sprintf("%d s %s", id, pt))
+		case "envsh":
+			pt, _ := partsTok(fmt.Sprintf("$%d", vID(d.Text)))
+			out = append(out, fmt.Sprintf("%d s %s", id, pt))
+		default:
+			pt, _ := partsTok(d.Text)
+			out = append(out, fmt.Sprintf("%d l %s", id, pt))
+		}
+	}
+	return strings.TrimSpace(fmt.Sprintf("%d %s", len(defs), strings.Join(out, " ")))
+}
+
+// defsOK: every name and reference of the case is in the protocol's name space
+func defsOK(d varsCase, call vCall) bool {
+	ok := true
+	chk := func(defs []vDef) {
+		for _, x := range defs {
+			if vID(x.Name) < 0 {
+				ok = false
+			}
+			if x.Kind == "ref" || x.Kind == "envsh" {
+				if vID(x.Text) < 0 {
+					ok = false
+				}
+			} else if _, pok := partsTok(x.Text); !pok {
+				ok = false
+			}
+		}
+	}
+	chk(d.RootEnv)
+	chk(d.RootVars)
+	chk(d.IncVars)
+	chk(d.SubVars)
+	chk(d.DeepIncVars)
+	chk(d.LeafVars)
+	chk(call.Vars)
+	chk(d.Tasks[call.Task].Vars)
+	return ok
+}
+
+// onlyLiteralDef: the sites at which the call sees a definition of `name`; ok when there is exactly one and it is a literal
+func onlyLiteralDef(d varsCase, call vCall, name string) (string, bool) {
+	t := d.Tasks[call.Task]
+	lists := [][]vDef{d.RootEnv, d.RootVars, call.Vars, t.Vars}
+	if d.Include {
+		lists = append(lists, d.SubVars) // merged into the globals, whoever is called
+		if t.Sub || t.Leaf {
+			lists = append(lists, d.IncVars)
+		}
+	}
+	if d.Deep {
+		lists = append(lists, d.LeafVars)
+		if t.Leaf {
+			lists = append(lists, d.DeepIncVars)
+		}
+	}
+	n, val, lit := 0, "", true
+	for _, l := range lists {
+		for _, x := range l {
+			if x.Name == name {
+				n++
+				val = x.Text
+				if x.Kind != "lit" || strings.Contains(x.Text, "{{") {
+					lit = false
+				}
+			}
+		}
+	}
+	return val, n == 1 && lit
 }
 
 func hasEnvSh(d varsCase) bool {
@@ -773,6 +918,16 @@ func hasEnvSh(d varsCase) bool {
 
 func (c *Ctx) vMarker(site string, i int) string { return fmt.Sprintf("%s%d", site, i) }
 
+// vRefName: the name a template / ref refers to: mostly the pool, sometimes a special variable
+func (c *Ctx) vRefName() string {
+	if c.Rng.Intn(7) == 0 {
+		sp := []string{"TASK", "TASK_DIR", "ROOT_DIR", "ALIAS", "TASKFILE_DIR", "USER_WORKING_DIR", "TASKFILE", "MATCH"}
+		c.Hit("ref-to-special")
+		return sp[c.Rng.Intn(len(sp))]
+	}
+	return vPool[c.Rng.Intn(vGen)]
+}
+
 func (c *Ctx) genDefs(site string, maxN int, allowSh bool, envdep bool) []vDef {
 	r := c.Rng
 	var out []vDef
@@ -783,7 +938,7 @@ func (c *Ctx) genDefs(site string, maxN int, allowSh bool, envdep bool) []vDef {
 		switch k := r.Intn(10); {
 		case k < 4:
 		case k < 6:
-			d.Text = c.vMarker(site, i) + "-{{." + vPool[r.Intn(vGen)] + "}}"
+			d.Text = c.vMarker(site, i) + "-{{." + c.vRefName() + "}}"
 		case k < 8 && allowSh:
 			d.Kind = "sh"
 			// few distinct tokens, so that the same command text occurs at several sites / in several tasks
@@ -793,7 +948,7 @@ func (c *Ctx) genDefs(site string, maxN int, allowSh bool, envdep bool) []vDef {
 			}
 		case k < 9:
 			d.Kind = "ref"
-			d.Text = vPool[r.Intn(vGen)]
+			d.Text = c.vRefName()
 		default:
 			if envdep && allowSh {
 				d.Kind = "envsh"
@@ -830,20 +985,12 @@ func (c *Ctx) genVarsCase(envdep bool) varsCase {
 			}
 		}
 	}
-	if d.Include && !envdep && r.Intn(2) == 0 {
-		d.Indep = true
-		d.IncVars = litDefs(d.IncVars, "I")
-		if r.Intn(2) == 0 {
-			d.Deep = true
-			d.DeepIncVars = litDefs(uniqDefs(c.genDefs("j", 3, false, false)), "J")
-			var lv []vDef
-			for _, x := range uniqDefs(c.genDefs("l", 3, false, false)) {
-				if x.Kind == "lit" {
-					lv = append(lv, x)
-				}
-			}
-			d.LeafVars = lv
-		}
+	if d.Include && r.Intn(2) == 0 {
+		// a second level: the included file includes another one (its globals are merged upwards twice, its
+		// include statement's vars are merged under the outer statement's)
+		d.Deep = true
+		d.DeepIncVars = uniqDefs(c.genDefs("j", 3, true, envdep))
+		d.LeafVars = uniqDefs(c.genDefs("l", 3, true, envdep))
 	}
 	nt := 2 + r.Intn(3)
 	for i := 0; i < nt; i++ {
@@ -861,6 +1008,19 @@ func (c *Ctx) genVarsCase(envdep bool) varsCase {
 				t.Dir = "{{.VG}}"
 			}
 		}
+		if !t.Sub && !t.Leaf && r.Intn(7) == 0 {
+			t.Name = fmt.Sprintf("w%d-*", i) // a wildcard task: every call binds MATCH
+			if r.Intn(3) == 0 {
+				t.Name += "-*"
+			}
+			c.Hit("task:wildcard")
+		} else if r.Intn(5) == 0 {
+			t.Alias = fmt.Sprintf("al%d", i)
+		}
+		if r.Intn(8) == 0 {
+			t.Method = []string{"checksum", "timestamp"}[r.Intn(2)]
+			c.Hit("task:sources:" + t.Method)
+		}
 		t.Vars = uniqDefs(c.genDefs(fmt.Sprintf("t%d", i), 3, true, envdep))
 		if r.Intn(3) == 0 {
 			for _, x := range c.genDefs("te", 2, false, false) {
@@ -871,6 +1031,26 @@ func (c *Ctx) genVarsCase(envdep bool) varsCase {
 		}
 		if r.Intn(3) == 0 {
 			t.Dotenv = []string{".env1", ".env2"}[:1+r.Intn(2)]
+		}
+		// C11, directory clause: a dir: that depends on a call / task / included-file variable, or is `~` — the task's sh:
+		// variables must run where its commands run (dotenv files exist in the plain directories only)
+		if len(t.Dotenv) == 0 && r.Intn(4) == 0 {
+			switch k := r.Intn(4); {
+			case k == 0 && !t.Sub && !t.Leaf:
+				t.Dir = "~"
+			case k == 1:
+				t.Dir, t.DirVia = "{{.VG}}", "call"
+			case k == 2:
+				t.Dir, t.DirVia = "{{.VG}}", "task"
+				at := r.Intn(len(t.Vars) + 1) // before or after the task's sh: variables (after: circular, the model mirrors)
+				t.Vars = uniqDefs(append(append(append([]vDef{}, t.Vars[:at]...), vDef{"VG", "lit", "alt"}), t.Vars[at:]...))
+			case k == 3 && (t.Sub || t.Leaf):
+				t.Dir, t.DirVia = "{{.VG}}", "subfile"
+				d.SubVars = uniqDefs(append(d.SubVars, vDef{"VG", "lit", "alt"}))
+			}
+			if t.Dir != "" {
+				c.Hit("dir-clause:" + t.Dir + ":" + t.DirVia)
+			}
 		}
 		d.Tasks = append(d.Tasks, t)
 	}
@@ -891,19 +1071,33 @@ func (c *Ctx) genVarsCase(envdep bool) varsCase {
 		if r.Intn(2) == 0 {
 			cl.Vars = uniqDefs(c.genDefs(fmt.Sprintf("c%d", i), 2, true, envdep))
 		}
+		if d.Tasks[cl.Task].Alias != "" && r.Intn(2) == 0 {
+			cl.ByAlias = true
+			c.Hit("call:by-alias")
+		}
+		if d.Tasks[cl.Task].DirVia == "call" && r.Intn(3) > 0 {
+			cl.Vars = uniqDefs(append(cl.Vars, vDef{"VG", "lit", "alt"}))
+		}
+		for k := strings.Count(d.Tasks[cl.Task].Name, "*"); k > 0; k-- {
+			cl.Wild = append(cl.Wild, fmt.Sprintf("m%d", r.Intn(3)))
+		}
 		d.Seq = append(d.Seq, cl)
 	}
 	// a user definition named like a special variable, at one or two sites: it must win wherever it is visible
+	spNames := append([]string{}, vSpecial...)
+	if hasSources(d) {
+		spNames = append(spNames, "CHECKSUM", "TIMESTAMP", "CHECKSUM", "TIMESTAMP")
+	}
 	for k := r.Intn(3); k > 0 && r.Intn(2) == 0; k-- {
-		sp := vDef{Name: vSpecial[r.Intn(len(vSpecial))], Kind: "lit"}
-		switch site := r.Intn(5); {
+		sp := vDef{Name: spNames[r.Intn(len(spNames))], Kind: "lit"}
+		switch site := r.Intn(7); {
 		case site == 0:
 			sp.Text = "u-glob"
 			d.RootVars = uniqDefs(append(d.RootVars, sp))
-		case site == 1 && d.Include && !d.Indep:
+		case site == 1 && d.Include:
 			sp.Text = "u-incl"
 			d.IncVars = uniqDefs(append(d.IncVars, sp))
-		case site == 2 && d.Include && !d.Deep:
+		case site == 2 && d.Include:
 			sp.Text = "u-sub"
 			d.SubVars = uniqDefs(append(d.SubVars, sp))
 		case site == 3:
@@ -914,6 +1108,12 @@ func (c *Ctx) genVarsCase(envdep bool) varsCase {
 			sp.Text = "u-call"
 			ci := r.Intn(len(d.Seq))
 			d.Seq[ci].Vars = uniqDefs(append(d.Seq[ci].Vars, sp))
+		case site == 5 && d.Deep:
+			sp.Text = "u-leaf"
+			d.LeafVars = uniqDefs(append(d.LeafVars, sp))
+		case site == 6:
+			sp.Text = "u-genv"
+			d.RootEnv = uniqDefs(append(d.RootEnv, sp))
 		default:
 			continue
 		}
@@ -1089,6 +1289,33 @@ func runVars(c *Ctx) {
 		}
 		c.Hit("envchain")
 		emitAll(varsCase{Kind: "envchain", Chain: ch, Dotenvs: map[string][][2]string{}})
+	}
+	// the environment clause over the real pipeline: global env templated twice, sh: entries, both settings of the experiment
+	for _, ep := range []vEnvPipe{
+		{Genv: []vDef{{"EA", "lit", "e-{{.VA}}"}}, Gvars: []vDef{{"VA", "lit", "x"}}, Tvars: []vDef{{"VA", "lit", "y"}}},
+		{Prec: true, Os: [][2]string{{"EA", "osea"}, {"VA", "osva"}}, Genv: []vDef{{"EA", "lit", "ge"}, {"EB", "envsh", "VA"}}, Gvars: []vDef{{"VA", "lit", "gv"}, {"VB", "envsh", "EA"}}},
+		{Os: [][2]string{{"EA", "osea"}, {"VA", "osva"}}, Genv: []vDef{{"EA", "lit", "ge"}, {"EB", "envsh", "VA"}}, Gvars: []vDef{{"VA", "lit", "gv"}, {"VB", "envsh", "EA"}}},
+		{Dir: "sub", Genv: []vDef{{"EA", "sh", "K0"}}, Tenv: []vDef{{"EB", "sh", "K0"}}},
+	} {
+		ep := ep
+		emitAll(varsCase{Kind: "envpipe", EnvPipe: &ep, Dotenvs: map[string][][2]string{}})
+	}
+	np := c.Pick(300, 3000)
+	for i := 0; i < np; i++ {
+		ep := c.genEnvPipe()
+		c.Hit(fmt.Sprintf("envpipe:prec=%v", ep.Prec))
+		emitAll(varsCase{Kind: "envpipe", EnvPipe: &ep, Dotenvs: map[string][][2]string{}})
+	}
+	// C11, the file system: commands rewrite files that later `sh:` variables read (same stream switch as the env-reading one)
+	if os.Getenv("VERIF_VARS_ENVDEP") != "0" {
+		fh := vFsHist{Files: [][3]string{{"", "f0.txt", "old"}, {"", "g.txt", "ig"}},
+			Tasks: []vFsTask{{Reads: "f0.txt", Writes: [][2]string{{"f0.txt", "new"}}}, {Reads: "f0.txt"}}, Seq: []int{0, 1}}
+		emitAll(varsCase{Kind: "fshist", FsHist: &fh, Dotenvs: map[string][][2]string{}})
+		for i := 0; i < c.Pick(120, 1200); i++ {
+			fh := c.genFsHist()
+			c.Hit("stream:fshist")
+			emitAll(varsCase{Kind: "fshist", FsHist: &fh, Dotenvs: map[string][][2]string{}})
+		}
 	}
 	nl := c.Pick(40, 400)
 	for i := 0; i < nl; i++ {
